@@ -754,6 +754,18 @@ func AtomicPoint(addr interface{}, write bool) {
 	}
 }
 
+// StatusRead / StatusWrite are what reads and updates of a stage status are rewritten to when the
+// instrumenter runs with -statuspoints: a scheduling point ordered on the stage, then the real call.
+func StatusRead[T any](obj interface{}, f func() T) T {
+	AtomicPoint(obj, false)
+	return f()
+}
+
+func StatusWrite[T any](obj interface{}, f func(T), v T) {
+	AtomicPoint(obj, true)
+	f(v)
+}
+
 // ---------------------------------------------------------------------------------------------
 // channels and select
 
